@@ -129,9 +129,9 @@ PROPS = {
     },
     'C18': {
         'level': 'proof',
-        'explanation': 'parse_args: the starting points are the maximal run of operands after the leading -H/-L/-P/-O flags, in order, each string unchanged, "." when there is none; do_find walks them one after another in that order, each exactly once, keeps the exit status non-zero once a starting point failed and goes on, stops only for -quit; process_dir hands the string unchanged to WalkDir::new.',
-        'assumptions': ['walkdir prefixes every reported path with the root exactly as given'],
-        'not_decided': ['-files0-from splitting (parse_files0_args: adapter chains around file I/O) is not covered'],
+        'explanation': 'parse_args: the starting points are the maximal run of operands after the leading -H/-L/-P/-O flags, in order, each string unchanged, "." when there is none; do_find walks them one after another in that order, each exactly once, keeps the exit status non-zero once a starting point failed and goes on, stops only for -quit; process_dir hands the string unchanged to WalkDir::new.; parse_files0_args (unit files0, body verbatim): on success config.new_paths is replaced by exactly the names of the NUL-separated list read from stdin ("-") or the named file - in order, exactly one final empty field dropped (a final NUL adds no name), empty names and nothing else skipped - and no other Config field changes; a source that cannot be opened or read is an Err',
+        'assumptions': ['walkdir prefixes every reported path with the root exactly as given', 'unit files0 (parse_files0_args, body verbatim): the five iterator/closure chains (slice::split at NUL + collect, last().is_some_and(is_empty), filter_map(from_utf8().ok()).map(to_string).collect, iter().any(is_empty), retain(!is_empty)), Option::insert, Vec::extend, read_to_end and File::open().map_err() are replaced by helpers keyed on their literal text whose contracts state what std documents for them (assumed); what is proved is their composition against names_of(bytes of the source)'],
+        'not_decided': ['-files0-from: a name that is not valid UTF-8 is dropped without a diagnostic (operands are &str, so it could not be a starting point of this find in any case): outside the statement; that the empty-name diagnostic is printed exactly when a name is empty is not stated as an obligation'],
     },
     'C08': {
         'level': 'proof',
